@@ -73,7 +73,8 @@ func (n *AsExpressionNode) Equal(other value.Value) bool {
 func (n *AsExpressionNode) String() string {
 	var buff strings.Builder
 
-	parens := ExpressionPrecedence(n) > ExpressionPrecedence(n.Value)
+	// `as` cannot be chained without parentheses
+	parens := ExpressionPrecedence(n) >= ExpressionPrecedence(n.Value)
 	if parens {
 		buff.WriteRune('(')
 	}
